@@ -261,7 +261,7 @@ func (w *worker) runPath(prog *ssa.Program, fn *ssa.Function, cfg *JobCfg, item 
 		w.solver.Reset()
 	}
 	e := &Exec{prog: prog, tf: w.tf, solver: w.solver, cfg: cfg,
-		globals: map[*ssa.Global]*Cell{}, inited: map[*ssa.Package]bool{}, strCache: map[string]*StrV{}, methods: map[string]*ssa.Function{},
+		globals: map[*ssa.Global]*Cell{}, inited: map[*ssa.Package]bool{}, strCache: map[string]*StrV{}, methods: map[methodKey]*ssa.Function{},
 		typeCache: w.typeCache(), prefix: item.Prefix, push: push, covers: map[string]bool{}, goals: map[string]bool{}, env: newEnv(),
 		fnsEntered: map[string]bool{}, noSpec: map[*ssa.If]int{}}
 	if item.Model != nil {
